@@ -411,11 +411,13 @@ class _RangeWrapper:
         return chunk
 
     def __next__(self) -> bytes:
-        chunk = self._next()
-        if chunk:
-            return chunk
-        self.end_reached = True
-        raise StopIteration()
+        while True:
+            chunk = self._next()
+
+            # An empty chunk from the wrapped iterable does not mean that it
+            # is exhausted, only StopIteration does.
+            if chunk:
+                return chunk
 
     def close(self) -> None:
         if hasattr(self.iterable, "close"):
